@@ -121,6 +121,7 @@ def pOp (toks : List String) : Option (Op Float) :=
       some (.unionN sets (pN pos))
   | ["chfix", n, v] => some (.chfix n (pF v))
   | ["copy"] => some .copy
+  | ["badargs"] => some .badArgs
   | ["map", name, ini, lo, hi, fx, ms, al] => some (.map (pArgs name ini lo hi fx) (pSel ms) (pAlias al))
   | _ => none
 
